@@ -75,7 +75,9 @@ SrcAxes(s)   == {"i"} \cup (IF \E k \in DOMAIN s : s[k].name = "y" THEN {"j"} EL
 SrcInputs(s, sz) ==
     LET roots == CatMap([n \in SrcNames |-> SrcRoots(n)], ParamsFor(s))
     IN  [k \in DOMAIN roots |-> <<roots[k][1], InputArr(roots[k][1], One(sz[roots[k][2]]))>>]
-SrcUniverse == UNION {{[desc |-> SrcDesc(s), inputs |-> SrcInputs(s, sz)] : sz \in [SrcAxes(s) -> MinSize..MaxSize]} : s \in SrcSeqs}
+(* sharded over TLC processes by position in one fixed enumeration of the source sequences *)
+SrcShard    == LET q == SetToSeq(SrcSeqs) IN {q[k] : k \in {n \in DOMAIN q : n % NShards = Shard}}
+SrcUniverse == UNION {{[desc |-> SrcDesc(s), inputs |-> SrcInputs(s, sz)] : sz \in [SrcAxes(s) -> MinSize..MaxSize]} : s \in SrcShard}
 SOrder == <<"a", "b", "c", "d", "e", "g", "p", "q", "t", "u", "v", "w", "x", "y">>   \* all names of the family, alphabetically
 
 FileCases == ndJsonDeserialize(IOEnv.CASE_FILE)
